@@ -6,6 +6,7 @@ import (
 	"errors"
 	"net/http"
 	"net/textproto"
+	"strings"
 
 	"github.com/resgateio/resgate/server/reserr"
 )
@@ -390,11 +391,11 @@ func MergeHeader(a, b http.Header) {
 		return
 	}
 	for k, v := range b {
+		// All WebSocket handshake headers are protected
+		if strings.HasPrefix(k, "Sec-Websocket-") {
+			continue
+		}
 		switch k {
-		case "Sec-Websocket-Extensions":
-			fallthrough
-		case "Sec-Websocket-Protocol":
-			fallthrough
 		case "Access-Control-Allow-Credentials":
 			fallthrough
 		case "Access-Control-Allow-Origin":
